@@ -6,6 +6,7 @@ returns the canonical Buffer of the bit-list operation — for all bit lists, bo
 chunk size.
 -/
 import Schc.Proofs.BufChunks
+import Schc.Proofs.ChunksTile
 import Schc.Proofs.BufBitwise
 import Schc.Proofs.BufValue
 
@@ -75,5 +76,40 @@ example :
     (Buf.bxor b ⟨[0x3f], 6, .left, 2⟩).map (·.1) = .ok ⟨[0x48], 6, .right, 2⟩ ∧
     b.value.map (·.1) = .ok 0x2d ∧
     b.chunks 4 true = .ok [⟨[0xb0], 4, .right, 4⟩, ⟨[0x40], 4, .right, 4⟩] := by decide
+
+/-- the pieces tile the sequence: without padding their concatenation is the Buffer's bits again, for every chunk size -/
+theorem C06_chunks_tile (n : Nat) (bits : Bits) : (Bits.chunks n false bits).flatten = bits := chunks_flatten n bits
+
+/-- with padding every piece has exactly `n` bits, and the pieces spell the bits followed only by zeros -/
+theorem C06_chunks_padded (n : Nat) (hn : 0 < n) (bits : Bits) :
+    (∀ c ∈ Bits.chunks n true bits, c.length = n) ∧ ∃ k, (Bits.chunks n true bits).flatten = bits ++ Bits.zeros k :=
+  chunks_padded n hn bits
+
+/-! ### compositions (results are canonical, so operations chain) -/
+
+/-- `~~b == b` -/
+theorem C06_invert_twice (a : ABuf) : (do let x ← (Buf.ofABuf a).invert; x.invert) = .ok (Buf.ofABuf a) := by
+  simp only [bind, Except.bind, invert_spec, List.map_map]
+  congr 2
+  obtain ⟨bits, side⟩ := a
+  simp only [ABuf.mk.injEq, and_true]
+  have : (not ∘ not) = id := by funext b; cases b <;> rfl
+  rw [this, List.map_id]
+
+/-- shifting left by `s` and back right by `s` gives the Buffer back, whatever its side and alignment -/
+theorem C06_shift_left_right (a : ABuf) (s : Nat) :
+    (do let (x, _) ← (Buf.ofABuf a).shift (-(s : Int)) false
+        let (y, _) ← x.shift (s : Int) false
+        pure y) = .ok (Buf.ofABuf a) := by
+  simp only [bind, Except.bind, shift_spec, pure, Except.pure]
+  congr 2
+  obtain ⟨bits, side⟩ := a
+  unfold specShift
+  by_cases h0 : s = 0
+  · subst h0; simp
+  · have h1 : (-(s : Int)) < 0 := by omega
+    have h2 : ¬ ((s : Int) < 0) := by omega
+    simp only [h1, h2, if_true, if_false, Int.natAbs_neg, Int.natAbs_natCast, List.length_append, Bits.zeros, List.length_replicate,
+      Nat.add_sub_cancel, List.take_left']
 
 end Schc
